@@ -182,6 +182,13 @@ func (g *egen) str(d int) (*enode, ev) {
 		rt, rv := g.str(d - 1)
 		return &enode{op: "+", kids: []*enode{l, rt}, level: lvAdd}, ev{k: 's', s: lv.s + rv.s}
 	}
+	if r.Chance(25) {
+		// the right operand of a string concatenation is formatted as printing would format it:
+		// values of named types with a print method by that method, booleans and unsigned ints plainly
+		na := []struct{ src, text string }{{"nvI", namedText("int", 3)}, {"nvS", namedText("str", "s'")}, {"nvB", namedText("bool", true)}, {"nvU", namedText("u8", 7)},
+			{"t", "true"}, {"u9", "9"}, {"nvT", namedText("struct", 4)}}[r.Intn(7)]
+		return &enode{op: "+", kids: []*enode{l, atom(na.src)}, level: lvAdd}, ev{k: 's', s: lv.s + na.text}
+	}
 	a := intAtoms[r.Intn(len(intAtoms))]
 	return &enode{op: "+", kids: []*enode{l, atom(a.src)}, level: lvAdd}, ev{k: 's', s: lv.s + fmt.Sprint(a.v)}
 }
@@ -385,7 +392,12 @@ func genExprCase(r *h.Rand) h.Case {
 		bind("bi", vInt(9007199254740993)), bind("bj", vInt(9007199254740992)), bind("bm", vInt(9223372036854775807)), bind("bn", vInt(-9223372036854775808)),
 		bind("li", vSliceT(vInt(3), vInt(0), vInt(4))), bind("ls", vSliceT(vStr("l0"), vStr(""), vStr("z"))),
 		bind("st", vT1(5, "B", vSliceI(), vMapI(), vPtr("T1", nil), vInt(0))),
-		bind("s", vStr("a<b")), bind("e", vStr("")), bind("t", vBool(true)), bind("ff", vBool(false)))
+		bind("s", vStr("a<b")), bind("e", vStr("")), bind("t", vBool(true)), bind("ff", vBool(false)), bind("u9", vUint(9)))
+	nv := func(k string, v *sx.Sexp) *sx.Sexp { return sx.L(sx.A("named"), sx.A(k), v) }
+	if strings.Contains(src, "nv") {
+		p.vars.Add(bind("nvI", nv("int", vInt(3)))).Add(bind("nvS", nv("str", vStr("s'")))).Add(bind("nvB", nv("bool", vBool(true)))).
+			Add(bind("nvU", nv("u8", vInt(7)))).Add(bind("nvT", nv("struct", vInt(4))))
+	}
 	p.data = vNil()
 	p.files = map[string]string{"/main.jet": "[{{ " + src + " }}]"}
 	p.tags["expr"] = true
